@@ -149,6 +149,9 @@ func (c *End) Write(p []byte) (int, error) {
 func (s *stream) push(e *Exec, p []byte) {
 	d := append([]byte(nil), p...)
 	e.seq++
+	if e.cur != nil {
+		e.note(e.cur, KYield, -2)
+	}
 	s.Log = append(s.Log, WriteRec{Seq: e.seq, Off: s.total, Data: d})
 	keep := d
 	if s.cutAt >= 0 {
@@ -175,7 +178,7 @@ func (c *End) Close() error {
 	if e == nil || e.dead {
 		return nil
 	}
-	e.point(op{kind: KConnClose, st: c.wr})
+	e.point(op{kind: KConnClose, st: c.wr, st2: c.rd})
 	if c.wr.wclosed && c.rd.rclosed {
 		return ErrClosed
 	}
